@@ -65,3 +65,45 @@ let run (id : string) (ops : string list) (out : out_channel) =
   if names <> [] then Printf.fprintf out "%s\ttags\t%s\n" id (String.concat "," names)
 
 let registered = Registry.register "C13" run
+
+(* ---- extraction cross-check inside Coq (see c18.ml): run_trace (same variant) on the case's ops,
+   recomputed by vm_compute, must equal the (outs, tags) this extracted runner computed. *)
+let coq_frag (f : C13Model.frag) =
+  Printf.sprintf "{| f_src := %s; f_dst := %s; f_id := %s; f_ihl := %s; f_len := %s; f_flags := %s; f_off := %s; f_hdr := %s; f_payload := %s |}"
+    (coq_z f.C13Model.f_src) (coq_z f.C13Model.f_dst) (coq_z f.C13Model.f_id) (coq_z f.C13Model.f_ihl) (coq_z f.C13Model.f_len)
+    (coq_z f.C13Model.f_flags) (coq_z f.C13Model.f_off) (coq_zlist f.C13Model.f_hdr) (coq_zlist f.C13Model.f_payload)
+let coq_frag6 (g : C13Model.frag6) =
+  Printf.sprintf "{| g_src := %s; g_dst := %s; g_id := %s; g_off := %s; g_more := %s; g_nh := %s; g_hdr := %s; g_payload := %s |}"
+    (coq_z g.C13Model.g_src) (coq_z g.C13Model.g_dst) (coq_z g.C13Model.g_id) (coq_z g.C13Model.g_off) (coq_bool g.C13Model.g_more)
+    (coq_z g.C13Model.g_nh) (coq_zlist g.C13Model.g_hdr) (coq_zlist g.C13Model.g_payload)
+let coq_op (o : C13Model.op) = match o with
+  | C13Model.Op4 (C13Model.OFrag (f, t)) -> Printf.sprintf "Op4 (OFrag %s %s)" (coq_frag f) (coq_z t)
+  | C13Model.Op4 (C13Model.ODiscard t) -> Printf.sprintf "Op4 (ODiscard %s)" (coq_z t)
+  | C13Model.Op6 (C13Model.O6Frag g) -> Printf.sprintf "Op6 (O6Frag %s)" (coq_frag6 g)
+  | C13Model.Op6 (C13Model.O6Discard b) -> Printf.sprintf "Op6 (O6Discard %s)" (coq_bool b)
+let coq_out (o : C13Model.out) = match o with
+  | C13Model.Out4 (C13Model.Res r) ->
+    "Out4 (Res " ^ (match r with
+      | C13Model.RNone -> "RNone" | C13Model.RErr -> "RErr" | C13Model.RPanic -> "RPanic" | C13Model.RPass -> "RPass"
+      | C13Model.RDg d -> "(RDg " ^ coq_frag d ^ ")") ^ ")"
+  | C13Model.Out4 (C13Model.Discarded n) -> "Out4 (Discarded " ^ coq_z n ^ ")"
+  | C13Model.Out6 (C13Model.Res6 C13Model.R6None) -> "Out6 (Res6 R6None)"
+  | C13Model.Out6 (C13Model.Res6 (C13Model.R6Dg (nh, hd, pl))) ->
+    Printf.sprintf "Out6 (Res6 (R6Dg %s %s %s))" (coq_z nh) (coq_frag6 hd) (coq_zlist pl)
+  | C13Model.Out6 (C13Model.Discarded6 n) -> "Out6 (Discarded6 " ^ coq_z n ^ ")"
+let coq_tags (t : C13Model.tags) =
+  Printf.sprintf "{| t_dup := %s; t_overlap := %s; t_hole := %s; t_toomany := %s; t_fallthrough := %s |}"
+    (coq_bool t.C13Model.t_dup) (coq_bool t.C13Model.t_overlap) (coq_bool t.C13Model.t_hole) (coq_bool t.C13Model.t_toomany)
+    (coq_bool t.C13Model.t_fallthrough)
+let to_coq (idx : int) (ops : string list) (out : out_channel) =
+  let l = Stdlib.List.map parse_op ops in
+  let nbytes = Stdlib.List.fold_left (fun a o -> match o with
+    | C13Model.Op4 (C13Model.OFrag (f, _)) -> a + Stdlib.List.length f.C13Model.f_payload
+    | C13Model.Op6 (C13Model.O6Frag g) -> a + Stdlib.List.length g.C13Model.g_payload | _ -> a) 0 l in
+  if nbytes <= 600 then begin
+    let (tr, tg) = C13Model.run_trace variant l in
+    let vname = match Sys.getenv_opt "C13_VARIANT" with Some "orig" -> "origv" | _ -> "fixedv" in
+    coq_example out idx (Printf.sprintf "run_trace %s %s" vname (coq_list coq_op l))
+      ("([" ^ String.concat ";\n      " (Stdlib.List.map coq_out tr) ^ "],\n     " ^ coq_tags tg ^ ")")
+  end
+let registered_coq = Registry.register_coq "C13" ("From GP Require Import Base C13Model.\n", to_coq)
